@@ -66,19 +66,34 @@ void trl(Ctx &c, bool near) {
     // R: the same unknown reflect on both ports
     Standard Rs; Rs.k = 2; Rs.ports = c.boolean() ? std::vector<int>{0, 1} : std::vector<int>{1, 0};
     SCell rc; rc.kind = SCell::SCALAR; rc.v = R.truth; rc.uparam = 0;
-    if (near) { Rs.entry = Standard::SINGLE; Rs.k = 1; Rs.ports = {(int)c.draw(2)}; Rs.cells = {rc}; }
-    else { Rs.entry = Standard::DOUBLE; Rs.cells = {rc, rc}; }
+    int near_kind = near ? (int)c.draw(4) : -1;
+    if (near_kind == 0) { Rs.entry = Standard::SINGLE; Rs.k = 1; Rs.ports = {(int)c.draw(2)}; Rs.cells = {rc}; }      // reflect on one port only
+    else if (near_kind == 1) {      // unknown reflect on one port, a KNOWN different reflect on the other
+        Rs.entry = Standard::DOUBLE; SCell known = make_cell(c, sc.F, c.boolean() ? C(1, 0) : rnd_disk(c, 0.5L, 1.0L));
+        Rs.cells = c.boolean() ? std::vector<SCell>{rc, known} : std::vector<SCell>{known, rc};
+    } else if (near_kind == 2) {    // two DIFFERENT unknown reflects; the line is known instead
+        UParam R2; C r2 = rnd_disk(c, 0.5L, 1.0L); for (int f = 0; f < sc.F; f++) R2.truth.push_back(r2 * polar(1, -0.05L * f));
+        R2.guess_vector = sc.F > 1; { C d = rnd_disk(c, 0, 0.1L); for (auto &t : R2.truth) R2.guess.push_back(t * (C(1, 0) + d)); }
+        sc.uparams[1] = R2;
+        SCell rc2; rc2.kind = SCell::SCALAR; rc2.v = R2.truth; rc2.uparam = 1;
+        Rs.entry = Standard::DOUBLE; Rs.cells = {rc, rc2};
+    } else { Rs.entry = Standard::DOUBLE; Rs.cells = {rc, rc}; }
     g.finish(Rs);
     // L: unknown transmission
     Standard Ls; Ls.entry = Standard::LINE; Ls.k = 2; Ls.ports = c.boolean() ? std::vector<int>{0, 1} : std::vector<int>{1, 0};
     SCell lc; lc.kind = SCell::SCALAR; lc.v = L.truth; lc.uparam = 1;
+    if (near_kind == 2) { lc.uparam = -1; if (sc.F > 1) lc.kind = SCell::VECTOR; }     // known line
     Ls.cells = {const_cell(SCell::MATCH, sc.F, 0), lc, lc, const_cell(SCell::MATCH, sc.F, 0)};
+    if (near_kind == 3) {           // unknown transmission in one direction only, the other direction known
+        SCell kn; kn.kind = sc.F > 1 ? SCell::VECTOR : SCell::SCALAR; kn.v = L.truth;
+        if (c.boolean()) Ls.cells[1] = kn; else Ls.cells[2] = kn;
+    }
     g.finish(Ls);
     sc.stds = {T, Rs, Ls};
     g.shuffle();
     sc.dut = gen_dut(c, 2, sc.F);
     describe(c, sc);
-    c.label(near ? "path:near-TRL" : "path:TRL"); c.label(std::string("type:") + vm::tname(sc.type));
+    c.label(near ? "path:near-TRL" : "path:TRL"); if (near) { char nl[32]; snprintf(nl, sizeof nl, "near-TRL:kind%d", near_kind); c.label(nl); } c.label(std::string("type:") + vm::tname(sc.type));
     long double kappa = 0; bool det = true;
     for (int f = 0; f < sc.F; f++) { vm::Ident id = ident_with_unknowns(sc, f); if (!id.determining) det = false; kappa = std::max(kappa, id.kappa); }
     if (!near && !det) { c.label("filtered:not-determining"); return; }
@@ -97,7 +112,7 @@ void trl(Ctx &c, bool near) {
     PBT_CHECK(c, run.log.n_nonwarning() == 0, "C02.success_with_error_callback", "solve returned 0 but reported: %s", run.log.text().c_str());
     if (near && !det) { c.label("near-TRL:not-determining"); return; }
     c.nontrivial();
-    check_solution(c, sc, run, 0, kappa, near ? "near-TRL" : "TRL");
+    check_solution(c, sc, run, near ? 1e-6L : 0, kappa, near ? "near-TRL" : "TRL");      // near-TRL sets go through the iterative solver with the default tolerances (1e-6)
 }
 
 // ---- (b) Levenberg-Marquardt ------------------------------------------------------------------
@@ -166,7 +181,7 @@ void lm(Ctx &c) {
 } // namespace
 
 void pbt_property(Ctx &c) {
-    switch (c.weighted({3, 5, 1})) {
+    switch (c.weighted({3, 5, 3})) {
     case 0: trl(c, false); break;
     case 1: lm(c); break;
     default: trl(c, true); break;
